@@ -137,6 +137,20 @@ def judge(ctx, case):
         xv = ~numpy.isnat(x) if f["validity"] is None else f["validity"]
     else:
         x, xv = gen.fact_parts(f)
+    if agg == "covariance" and case["weights"]["kind"] in ("array", "tuple") and n >= 4 and n % 3 == 0 \
+            and not case["weights"].get("zero_rows_added"):
+        # some rows weigh exactly 0 - preferably rows with a missing fact value: a valid row of weight zero carries no
+        # mass, but it is a row of its cell, and its missing values count under the missing rule like any other row's
+        zr = numpy.random.default_rng(n * 131 + len(dense))
+        incomplete = ~(xv.all(axis=1) if xv.ndim == 2 else xv)
+        pickz = (incomplete & (zr.random(n) < 0.6)) | (zr.random(n) < 0.08)
+        wz = dict(case["weights"])
+        vals = numpy.array(wz["values"], dtype=float, copy=True)
+        vals[pickz & numpy.isfinite(vals)] = 0.0
+        wz["values"] = vals
+        wz["zero_rows_added"] = True
+        case["weights"] = wz
+        ctx.count("class:covariance_with_rows_of_weight_zero")
     w, wv = gen.weight_parts(case["weights"], n)
     ctx.count("agg:" + agg)
     ctx.count("class:ndims=%d" % len(dense))
@@ -149,7 +163,14 @@ def judge(ctx, case):
         ctx.count("class:cols")
     cube = catii.xcube([a.copy() for a in dense], interacting_shape=shape) if dense else catii.xcube([])
     rma = aggr.nat_for(case)
-    res = numpy.asarray(aggr.call_x(cube, agg, case, rma))
+    try:
+        res = numpy.asarray(aggr.call_x(cube, agg, case, rma))
+    except ZeroDivisionError:
+        if case["weights"].get("zero_rows_added"):
+            # some cell's weights sum to zero: not a covariance (see assumptions) - the case is outside the quantifier
+            ctx.count("skipped:a_cell_with_weight_sum_zero(outside the quantifier)")
+            return
+        raise
     sent = (numpy.datetime64("1999-01-01", "s") if is_dt else -12345.0)
     res2 = aggr.call_x(cube, agg, case, (sent, False))
     sshape = oracles.scaffold_shape(dense)
@@ -298,6 +319,9 @@ def judge(ctx, case):
                     if col_missing.any():
                         ctx.count("cells:missing_by_value")
                         nontrivial = True
+                if sw is not None and int((sw[numpy.isfinite(sw)] > 0).sum()) < 2 and not col_missing.all():
+                    ctx.count("cells:fewer_than_two_rows_of_positive_weight(undefined, not compared)")
+                    continue
                 for i in range(cx.shape[1]):
                     for j in range(cx.shape[1]):
                         idx = at + (i, j)
@@ -349,7 +373,9 @@ def judge(ctx, case):
             pass
         if a0.shape != a1.shape or not numpy.array_equal(numpy.isnan(a0), numpy.isnan(a1)) or \
                 not numpy.all(numpy.abs(a0[~numpy.isnan(a0)] - a1[~numpy.isnan(a1)]) <= tol):
-            complete = int((xv.all(axis=1) if xv.ndim == 2 else xv)[(wv if wv is not None else numpy.ones(n, dtype=bool))].sum()) if ig else n
+            heavy = numpy.ones(n, dtype=bool) if w is None else (numpy.nan_to_num(numpy.broadcast_to(w, (n,)).astype(float), nan=1.0) > 0)
+            complete = int(((xv.all(axis=1) if xv.ndim == 2 else xv) & heavy)[(wv if wv is not None else numpy.ones(n, dtype=bool))].sum()) if ig \
+                else int(heavy.sum())
             # covariance of fewer than two (complete) rows is undefined; the two paths of the library
             # legitimately differ there (see assumptions)
             if not (agg == "covariance" and complete < 2):
